@@ -61,6 +61,10 @@ SUMMARY = {
 'c08u':'non-match chunk before a match ends at the max (instead of min) start offset over all patterns of the match state: with suffix patterns the match head is written verbatim and as many bytes after it are dropped',
 'c17u':'8-slot direct-mapped memo of fruitless find/is_match calls keyed by a fingerprint that hashes only the first and last 32 bytes of spans > 64 bytes: a different haystack of the same length and ends returns None',
 'c18u':'the closure result is checked at the top of the next loop iteration only: a closure (or in-closure write) failure at the last match of a stream that ends with that match is dropped',
+'c07v':'fill() returns Ok(false) on EOF even when earlier reads of the same call delivered bytes: streams shorter than the longest pattern are flushed unsearched (independent rediscovery of c08d)',
+'c08v':'table variant batches replacements of adjacent matches in a 256-byte stack buffer and writes a replacement that does not fit straight through without flushing first: long runs of back-to-back matches come out reordered',
+'c17v':'packed::Searcher copies sub-minimum_len haystacks into a shared scratch buffer whose tail is never re-zeroed: a shorter haystack after a longer one joins stale bytes to a pattern crossing its end',
+'c18v':'table variant wraps the writer in an 8 KiB coalescing buffer that is re-sent in full by a trailing flush after write_all failed part-way: the head of the block reaches the writer twice',
 'c18a':'fill returns Ok(true) instead of the error when it had already buffered bytes in the same call: one-shot read errors during the initial fill vanish',
 'c18b':'closure errors of kind Interrupted are retried by calling the closure again: error swallowed, partial output duplicated',
 'c18c':'fill commits its new end only after the loop: an error on a later read of one fill discards bytes accepted earlier; polling on shifts all later offsets',
